@@ -7,6 +7,10 @@ Definition blank : list N := [9; 10; 13; 32].
 Definition possi_cases : list (list N) := [[58]; [32; 9; 13; 10; 40; 91; 60]; [44; 124; 0]].
 Definition multiarch_stop : list N := [0; 9; 10; 13; 32; 40; 44; 60; 91; 124].
 Definition controllers_cases : list (list N) := [[44; 124; 0]; [40]; [91]; [60]].
+Definition number_cases : list (list N) := [[0]; [41]; [44; 124; 40]].
+Definition arch_cases : list (list N) := [[0]; [33]; [44; 124; 91]; [93; 32; 9; 13; 10]].
+Definition stage_cases : list (list N) := [[0]; [33]; [44; 124; 60]; [62; 32; 9; 13; 10]].
+Definition substvar_cases : list (list N) := [[0]; [44; 124; 36]; [125]; [44; 124; 0]].
 Definition ar_columns : list (N * N) := [(0, 16); (16, 28); (28, 34); (34, 40); (40, 48); (48, 58)].
 Definition ar_magic : list (N * N) := [(58, 96); (59, 10)].
 Definition ar_header_len : list N := [60].
